@@ -186,6 +186,13 @@ def check_tree(prop, tier, replay):
     nscen, lines, samples, allcls = run_tree(prop, tier, res, want, VARIANTS[prop], BUDGET[tier])
     if prop == "C15":
         race_run(res, tier)
+    modes = None
+    if prop in ("C06", "C07", "C08"):
+        # spec -> code: every stimulus order enumerated by TLC, replayed on the real filterSubscription
+        modes = run_modes(res, tier, MODES_CLASSES | {"crash"})
+        nscen += modes["orders"]
+        mdist += modes["states"]
+        mgen += modes["generated"]
     if prop == "C16":
         # the typed layer's monitors (all 12 generated packages): same callback protocol
         import fam_filters
@@ -202,6 +209,7 @@ def check_tree(prop, tier, replay):
         "checker_cmd": "tlc trace/TreeTrace.tla over traces of `harness tree`",
         "classes_judged": sorted(want),
         "not_quiescent_lines": allcls.get("not-quiescent", 0),
+        "mode_s": None if modes is None else {"stimulus_orders_replayed": modes["orders"], "max_length": modes["maxlen"], "exhaustive": True, "sample": modes["samples"][:1]},
     }
     res.assumptions = [
         "hooks log after the own state change and before publishing it (verif tag); rendezvous hand-offs are logged by the receiver",
@@ -209,3 +217,72 @@ def check_tree(prop, tier, replay):
         "quiescence = every library and harness-worker goroutine blocked in two consecutive stop-the-world stack dumps with no trace progress in between",
     ]
     return res.finish()
+
+
+MODES_CLASSES = {"modes-exists", "ready-too-early", "not-ready", "content-differs", "event-before-ready", "events-differ"}
+MODES_CFG = "SPECIFICATION Spec\nINVARIANT Done\nCHECK_DEADLOCK FALSE\n"
+
+
+def run_modes(res, tier, want):
+    """Spec -> code: TLC enumerates every stimulus order (ModeS.tla), the harness replays each on the real
+    filterSubscription, TLC compares prediction and observation."""
+    import json as _json
+    sc = vlib.scratch()
+    h = vlib.build_harness()
+    n = 4 if tier == "quick" else 6
+    total = 0
+    states = gen = 0
+    samples = []
+    for variant in ("imm", "def"):
+        d = vlib.tlc_dir(None)
+        rc, out = vlib.run_tlc("ModeS.tla", open(os.path.join(vlib.SPEC, "cfg", "ModeS-%s-%d.cfg" % (variant, n))).read(), workers=4, heap="6g", timeout=1800, d=d)
+        if rc != 0 or "No error has been found" not in out:
+            raise Inconclusive("ModeS.tla (%s, %d): the model is refuted or TLC failed: %s" % (variant, n, out[-2000:]))
+        g, dd = vlib.tlc_stats(out)
+        gen += g
+        states += dd
+        beh = os.path.join(sc, "beh-%s.ndjson" % variant)
+        nb = 0
+        with open(beh, "w") as f:
+            for m in re.finditer(r'<<"BEH", (".*")>>', out):
+                f.write(_json.loads(m.group(1)) + "\n")
+                nb += 1
+        expect = sum(6 ** k for k in range(1, n + 1))
+        if nb != expect:
+            raise Inconclusive("ModeS.tla printed %d behaviours, expected %d" % (nb, expect))
+        nsh = 8 if tier == "quick" else 16
+        cmds, outs = [], []
+        for s in range(nsh):
+            o = os.path.join(sc, "modes-%s-%d.ndjson" % (variant, s))
+            outs.append(o)
+            cmds.append(([h, "modes", "-in", beh, "-out", o, "-shards", str(nsh), "-shard", str(s)], o + ".log", None))
+        rcs = vlib.run_parallel(cmds, timeout=2400, maxpar=16)
+        good = []
+        for rc2, o in zip(rcs, outs):
+            lg = open(o + ".log").read()
+            if rc2 != 0:
+                if "panic" in lg or "fatal error" in lg:
+                    res.classify("crash", "modes driver died: " + lg[:1500])
+                    continue
+                raise Inconclusive("modes driver failed: " + lg[-500:])
+            good.append(o)
+        dj = vlib.tlc_dir(None)
+        cfgp = os.path.join(dj, "m.cfg")
+        open(cfgp, "w").write(MODES_CFG)
+        tl = [(vlib.tlc_argv(dj, "ModeSRecords.tla", cfgp, workers=1, heap="2g", procs=2), o + ".tlc", {"VT_TRACE": o}, dj) for o in good]
+        rcs = vlib.run_parallel(tl, timeout=1800, maxpar=8)
+        for rc3, o in zip(rcs, good):
+            outj = open(o + ".tlc").read()
+            nrec = sum(1 for _ in open(o))
+            m = re.search(r'<<"CONSUMED", (\d+)>>', outj)
+            if rc3 != 0 or not m or int(m.group(1)) != nrec:
+                raise Inconclusive("TLC did not consume %s: %s" % (o, outj[-1500:]))
+            total += nrec
+            for (ln, cls, txt) in vlib.verdicts(outj):
+                if cls in want:
+                    res.classify(cls, txt, artefact={"file": os.path.basename(o), "line": ln, "variant": variant})
+        with open(good[0]) as fh:
+            ls = fh.readlines()
+            samples.append(_json.loads(ls[len(ls) // 2]))
+    log("mode S: %d stimulus orders (length <= %d, immediate and deferred) replayed on the real filterSubscription" % (total, n))
+    return {"orders": total, "maxlen": n, "states": states, "generated": gen, "samples": samples}
